@@ -187,6 +187,18 @@ func evalResidual(out string) string {
 }
 
 // exact: a copy whose capacity equals its length (the model's slices have cap == len)
+// hostile returns b as a sub-slice of a larger buffer whose spare capacity holds non-zero junk: code
+// that re-slices its argument instead of copying (or appends into the caller's backing array and
+// trusts what it finds there) then computes with the junk
+func hostile(b []byte) []byte {
+	c := make([]byte, len(b)+32)
+	copy(c, b)
+	for i := len(b); i < len(c); i++ {
+		c[i] = 0xA5
+	}
+	return c[:len(b)]
+}
+
 func exact(b []byte) []byte {
 	c := make([]byte, len(b))
 	copy(c, b)
@@ -286,21 +298,21 @@ func init() {
 				return fmt.Sprintf("ok %s %s %s %s", hx(h), hx([]byte(str)), hx(nt), hx(lmr))
 			}},
 			{Name: "c02.v1.hash", Eval: evalResidual, Impl: func(a []string) string {
-				n, err := ntlmv1.NewNTLMv1WithNTHash("DOM", "user", exact(unhx(a[0])), exact(unhx(a[1])))
+				n, err := ntlmv1.NewNTLMv1WithNTHash("DOM", "user", hostile(unhx(a[0])), hostile(unhx(a[1])))
 				if err != nil {
 					return "err"
 				}
 				return outBytes(n.Hash())
 			}},
 			{Name: "c02.v1.nt", Eval: evalResidual, Impl: func(a []string) string {
-				n, err := ntlmv1.NewNTLMv1WithNTHash("DOM", "user", exact(unhx(a[0])), exact(unhx(a[1])))
+				n, err := ntlmv1.NewNTLMv1WithNTHash("DOM", "user", hostile(unhx(a[0])), hostile(unhx(a[1])))
 				if err != nil {
 					return "err"
 				}
 				return outBytes(n.NTResponse())
 			}},
 			{Name: "c02.desencrypt", Eval: evalResidual, Impl: func(a []string) string {
-				return okHex(ntlm.VerifDesEncrypt(exact(unhx(a[0])), exact(unhx(a[1]))))
+				return okHex(ntlm.VerifDesEncrypt(hostile(unhx(a[0])), hostile(unhx(a[1]))))
 			}},
 			{Name: "c02.v1resp", Eval: evalResidual, Impl: func(a []string) string {
 				l, n, err := ntlm.VerifCalculateNTLMv1Response(exact(unhx(a[0])), string(unhx(a[1])))
